@@ -41,6 +41,9 @@ func checkC13(c *Ctx) {
 	c.Floor("READLINE-PREFIX", 2)
 	c.unreadBeforeRescan("UNREAD-RESCAN", c.Func("io/nexus", "Scanner", "Scan"), "Converting a tree between Newick, Nexus ... and back gives the same tree")
 	c.Floor("UNREAD-RESCAN", 1)
+	c.Decides("APPEND-ALWAYS (go/cfg): Nexus.AddTree appends to its list of trees and to its list of names on every path: no tree of a file replaces another one")
+	c.appendAlways("APPEND-ALWAYS", c.Func("io/nexus", "Nexus", "AddTree"), []string{"trees", "treeNames"}, "Every tree of a multi-tree file is delivered in file order ... none is silently skipped")
+	c.Floor("APPEND-ALWAYS", 2)
 	c.Decides("CLOSER-NOT-READ (go/cfg): a caller of the Nexus parser's consumeComment does not look at the token it hands back (the closing bracket) before a scan assigns the variable anew - otherwise the command that follows a comment is skipped as unknown")
 	if c.closerNotRead("CLOSER-NOT-READ", c.Func("io/nexus", "Parser", "consumeComment"), "Every tree of a multi-tree file is delivered in file order ... none is silently skipped") > 0 {
 		c.Floor("CLOSER-NOT-READ", 4)
